@@ -3793,9 +3793,15 @@ def gen_CppNumeric(repo):
     files = ["engine.cpp", "SimulationAlgorithm3DBase.hpp", "SimulationAlgorithmGraphBase.hpp", "Euler3D.hpp", "EulerGraph.hpp",
              "TauLeap3D.hpp", "TauLeapGraph.hpp", "Gillespie3D.hpp", "GillespieGraph.hpp"]
     inits, casts, floats, litdiv, narrow, statics, clamps = [], [], [], [], [], [], []
+    preproc, fpenv = [], []
     ident = re.compile(r"[A-Za-z_]\w*")
     for f in files:
         txt = _cpp(repo, f)
+        for line in txt.splitlines():
+            if line.strip().startswith("#"):
+                preproc.append((f, re.sub(r"\s+", " ", line.strip())))
+        for m in re.finditer(r"_mm_\w+|_MM_\w+|\bmxcsr\b|\bfenv\b|\bfe(?:set|get|hold|update|clear|raise|test|enable|disable)\w*|\b_?controlfp\w*|FLUSH_ZERO|DENORMALS?_\w+|__builtin_ia32_\w+|\b(?:__)?asm(?:__)?\b|\bfast-math\b|\bFENV_ACCESS\b|\bsetlocale\b", txt):
+            fpenv.append((f, m.group(0)))
         txt = re.sub(r"\"(?:\\.|[^\"\\])*\"", '""', txt)       # string literals out
         # `for(int i=0; …)` headers are loop counters: recorded separately (name = start value)
         body = re.sub(r"for\s*\(\s*(?:int|size_t|unsigned|long)\s+\w+\s*=\s*[^;]*;", "for(;", txt)
@@ -3849,6 +3855,10 @@ def gen_CppNumeric(repo):
          "def clampSites : List (String × String) := %s\n" % lean_list(["(%s, %s)" % (lean_str(f), lean_str(t)) for f, t in clamps]),
          "/-- every `static` / `thread_local` declaration (function-local, class-level or file-level): (file, declaration head) -/",
          "def staticDecls : List (String × String) := %s\n" % lean_list(["(%s, %s)" % (lean_str(f), lean_str(t)) for f, t in statics]),
+         "/-- every preprocessor line (`#include`, `#define`, `#pragma`, `#if…`), blanks normalised: (file, line) -/",
+         "def preprocessorLines : List (String × String) := %s\n" % lean_list(["(%s, %s)" % (lean_str(f), lean_str(t)) for f, t in preproc]),
+         "/-- every token that reads or writes the floating-point environment or process-wide numeric state (SSE control register intrinsics, `<cfenv>` functions, `_controlfp`, inline assembly, `setlocale`): (file, token) -/",
+         "def fpEnvTokens : List (String × String) := %s\n" % lean_list(["(%s, %s)" % (lean_str(f), lean_str(t)) for f, t in fpenv]),
          "end Strengths.Gen.CppNumeric"]
     return "\n".join(L) + "\n"
 
